@@ -683,6 +683,47 @@ impl WorldGen {
         }
     }
 
+    /// Exhaustive paging probes on the current store: every start cursor (none, each id, gaps, past the end)
+    /// x limits {none, 0, 1, 2, n-1, n, n+1} x every status filter; id lists with duplicates and unknowns;
+    /// every user's requests; the in-flight queue likewise.
+    pub fn page_queries(&mut self) {
+        let v = view(&self.w.sim);
+        let n = v.pending;
+        let mut cursors: Vec<String> = vec!["-".to_string()];
+        for k in 0..=(n + 2) {
+            cursors.push(k.to_string());
+        }
+        let lims: Vec<String> = vec!["-".to_string(), "0".into(), "1".into(), "2".into(), n.saturating_sub(1).to_string(), n.to_string(), (n + 1).to_string()];
+        for c in cursors.iter() {
+            for l in lims.iter() {
+                for st in ["-", "pending", "submitted", "received"] {
+                    self.w.ops.push(format!("query batches {} {} {}", c, l, st));
+                }
+            }
+        }
+        let seqs: Vec<u64> = v.pkts.iter().map(|p| p.sequence).collect();
+        let mut pc: Vec<String> = vec!["-".to_string(), "0".to_string()];
+        for sq in seqs.iter() {
+            pc.push(sq.to_string());
+            pc.push((sq + 1).to_string());
+        }
+        for c in pc.iter() {
+            for l in ["-", "0", "1", "2", "3"] {
+                self.w.ops.push(format!("query ibcq {} {}", c, l));
+            }
+        }
+        for _ in 0..6 {
+            let ids: Vec<String> = (0..self.r.below(7)).map(|_| self.r.below(n + 3).to_string()).collect();
+            self.w.ops.push(format!("query byids [{}]", ids.join(",")));
+        }
+        let us = self.s.users.clone();
+        for u in us.iter() {
+            self.w.ops.push(format!("query requests {}", hs(u)));
+        }
+        self.w.ops.push(format!("query requests {}", hs(&addr(CHAIN_PREFIX, "nobody", 20))));
+        self.w.ops.push("query replyq - -".to_string());
+    }
+
     /// Read-only probes appended to the contract-level op stream.
     pub fn queries(&mut self) {
         let v = view(&self.w.sim);
